@@ -172,6 +172,38 @@ func (c *Checker) checkC16Msg(msg sdk.Msg, ok bool) {
 }
 
 // ---------------------------------------------------------------------------------------------
+// expectations recorded by scripted (corpus) histories in the item note:
+// "expect|ok|<property>|<key>|<text>" or "expect|fail|<property>|<key>|<text>"
+
+func (c *Checker) checkExpectation(ok bool) {
+	if !strings.HasPrefix(c.it.Note, "expect|") {
+		return
+	}
+	parts := strings.SplitN(c.it.Note, "|", 5)
+	if len(parts) < 4 {
+		return
+	}
+	wantOK := parts[1] == "ok"
+	prop, key := parts[2], parts[3]
+	c.hit(prop)
+	if ok == wantOK {
+		return
+	}
+	text := ""
+	if len(parts) == 5 {
+		text = ": " + parts[4]
+	}
+	if wantOK {
+		if c.it.Result.Panicked {
+			key += ":panic"
+		}
+		c.report(prop, key, "a message that must succeed was rejected"+text, nil)
+	} else {
+		c.report(prop, key, "a message that must be rejected succeeded"+text, c.it.Diff)
+	}
+}
+
+// ---------------------------------------------------------------------------------------------
 // C18: fees are charged exactly; accepted parameters never disable a feature
 
 func (c *Checker) checkFee(what string, fee *CoinV, signer string, ok bool) {
